@@ -216,6 +216,32 @@ def trace_values(trace, limit=60):
     return vals[-limit:]
 
 
+def loop_unwindset(goto, per_function):
+    """Maps {function pretty-name substring: bound} to CBMC's --unwindset argument using `cbmc --show-loops` on the final
+    goto binary (loop ids are `<mangled function>.<n>`).  A per-loop bound only ever LOWERS the number of iterations explored;
+    unwinding assertions stay on, so a bound that is too small makes the query inconclusive, never a pass."""
+    if not per_function:
+        return []
+    rc, so, _ = _run(["cbmc", "--show-loops", goto], 120, 8)
+    if rc != 0 or not so:
+        raise RuntimeError("cbmc --show-loops failed")
+    sets = []
+    cur = None
+    for line in so.split("\n"):
+        m = re.match(r"^Loop (\S+):\s*$", line)
+        if m:
+            cur = m.group(1)
+            continue
+        m = re.search(r" function (.+?)\s*$", line)
+        if m and cur:
+            fn = m.group(1)
+            for key, bound in per_function.items():
+                if key in fn:
+                    sets.append(f"{cur}:{bound}")
+            cur = None
+    return ["--unwindset", ",".join(sets)] if sets else []
+
+
 def verify(name, info, timeout, mem_gb, workdir, want_trace=False):
     """Runs the full pipeline for one harness.  Returns a result dict with verdict in
     {PASS, FAIL, INCONCLUSIVE}."""
@@ -230,6 +256,12 @@ def verify(name, info, timeout, mem_gb, workdir, want_trace=False):
     cmd = ["cbmc"] + CBMC_FLAGS + os.environ.get("VERIF_CBMC_EXTRA", "").split()
     if info.get("unwind") is not None:
         cmd += ["--unwind", str(info["unwind"])]
+    try:
+        cmd += loop_unwindset(goto, info.get("unwindset"))
+    except RuntimeError as e:
+        r["reason"] = str(e)
+        r["wall_s"] = round(time.time() - t0, 2)
+        return r
     cmd += ["--sat-solver", "cadical", "--slice-formula", goto, "--verbosity", "8", "--json-ui"]
     if want_trace:
         cmd += ["--trace"]
